@@ -1,6 +1,7 @@
 SPECIFICATION TSpec
 CONSTANTS Devs = @DEVS@
           Both = TRUE
+          CheckAcked = TRUE
           ScenSet = {}
 INVARIANTS TypeOK LockSafety TAcked DevReport
 CONSTRAINT TraceConstraint
